@@ -28,7 +28,8 @@ NegOf(f) == IF f.t = "line" THEN [f EXCEPT !.op = Neg(f.op)] ELSE [f EXCEPT !.pr
 NumP(lb, op, lit, n) == [t |-> "num", label |-> lb, op |-> op, val |-> <<n, 1>>, lit |-> lit, re |-> REps]
 MP(lb, op, v) == [t |-> "m", label |-> lb, op |-> op, val |-> v, lit |-> <<>>, re |-> REps]
 PredPool == { NumP(N, "gt", <<53>>, 5), NumP(<<122>>, "lt", <<53>>, 5), MP(K, "eq", A), MP(APP, "neq", A), NumP(N, "eq", <<55>>, 7) }
-BasePool == IF Pools # "full" THEN { <<>>, << [t |-> "logfmt"] >> } ELSE { <<>>, << [t |-> "logfmt"] >>, << [t |-> "logfmt"], MF(K, "eq", A, REps) >>, << [t |-> "drop", labels |-> <<APP>>] >> }
+BasePool == IF Pools # "full" THEN { <<>>, << [t |-> "logfmt"] >> } ELSE { <<>>, << [t |-> "logfmt"] >>, << [t |-> "logfmt"], MF(K, "eq", A, REps) >>, << [t |-> "drop", labels |-> <<APP>>], [t |-> "logfmt"] >> }
+\* (a base never ends in a plain drop/keep: the text "| drop app != x" denotes a drop with a value matcher - Pipeline!UnambiguousText)
 EmptyF == LineF("eq", <<>>, REps)
 Par(p) == [t |-> "paren", a |-> p, label |-> <<>>, op |-> "", val |-> <<>>, lit |-> <<>>]
 Bin(op, a, b) == [t |-> op, a |-> Par(a), b |-> Par(b), label |-> <<>>, op |-> "", val |-> <<>>, lit |-> <<>>]
